@@ -23,6 +23,8 @@ def build():
         ce = {'const_globals': CONSTG, 'exclude_fns': list(excl)}
         if extra:
             ce.update(extra)
+        if pools == {}:
+            p = {}
         sc = Scenario('%s_R%d%s' % (name, R, '_bin' if sem == 'binary' else ''), harness, threads, units=units, R=R, ninit=ninit, nfinal=nfinal, defines=defs, pools=p,
                       unroll=unroll or dict(UNROLL), cfg_extra=ce, **kw)
         S[sc.name] = sc
@@ -162,6 +164,10 @@ def build():
            excl=NOTE_FN + CVW_FN, timeout=3000)
         hb('note_obs', ['t_notifier', 't_note_observer', 'setup_note', 'final_x'], R, CV_UNITS, ninit=1, nfinal=1, pools={'note': {'type': 'struct.nsync_note_s_', 'count': 1}},
            excl=CTR_FN + CVW_FN, extra={'exclude_calls': [['nsync_note_notified_deadline_', 'notify']], 'max_rec': 2}, defines=['VF_FROZEN_CLOCK'], timeout=6000)
+    # ---- C18, C++ build: platform/c++11/src/time_rep_timespec.cc through the IR route (single thread, one context)
+    for fn in ['h_cpp_add', 'h_cpp_sub', 'h_cpp_cmp']:
+        add('cpp_' + fn, 'time_cpp.cc', [fn], 1, ['platform/c++11/src/time_rep_timespec.cc'], pools={}, defines=['VF_NO_DEADLOCK_CHECK'], timeout=600,
+            solver=())
     # ---- C19: allocation failure (single thread, one context, loops unrolled)
     AF = {'malloc_fail_flag': 'fail_alloc', 'exclude_calls': [['nsync_note_notified_deadline_', 'notify']], 'max_rec': 2}
     for U in (2, 3):
